@@ -1243,5 +1243,1056 @@ theorem wired_alloc {ds} {h : Heap} (w : WiredX ds h) (k : Kind) : WiredX ds (h.
   have : i ≠ h.next := fun e2 => by rw [e2, ez] at ei; cases ei
   simp only [Heap.kindOf, hne i this]; exact e
 
+
+/-! ### Accessors do not look at child lists -/
+
+/-- the part of a node the accessors look at -/
+def ptrs (n : Node) : Node := { n with kids := [] }
+
+theorem acc_congr_ptrs {h h' : Heap} (hp : ∀ i, (h'.get i).map ptrs = (h.get i).map ptrs) (x : Id) :
+    layerOf h' x = layerOf h x ∧ layerSetOf h' x = layerSetOf h x ∧ fontOf h' x = fontOf h x ∧
+    dispOf h' x = dispOf h x ∧ glyphOf h' x = glyphOf h x ∧ parentOf h' x = parentOf h x := by
+  have node : ∀ i, (h'.get i = none ∧ h.get i = none) ∨ ∃ n' n, h'.get i = some n' ∧ h.get i = some n ∧ ptrs n' = ptrs n := by
+    intro i
+    have := hp i
+    cases e1 : h'.get i <;> cases e2 : h.get i <;> simp [e1, e2] at this ⊢
+    exact this
+  have sL : ∀ i, h'.storedLayer i = h.storedLayer i := fun i => by
+    rcases node i with ⟨e1, e2⟩ | ⟨n', n, e1, e2, hn⟩
+    · simp [Heap.storedLayer, e1, e2]
+    · have := congrArg Node.pLayer hn
+      simp only [ptrs] at this
+      simp [Heap.storedLayer, e1, e2, this]
+  have sS : ∀ i, h'.storedLayerSet i = h.storedLayerSet i := fun i => by
+    rcases node i with ⟨e1, e2⟩ | ⟨n', n, e1, e2, hn⟩
+    · simp [Heap.storedLayerSet, e1, e2]
+    · have := congrArg Node.pLayerSet hn
+      simp only [ptrs] at this
+      simp [Heap.storedLayerSet, e1, e2, this]
+  have sF : ∀ i, h'.storedFont i = h.storedFont i := fun i => by
+    rcases node i with ⟨e1, e2⟩ | ⟨n', n, e1, e2, hn⟩
+    · simp [Heap.storedFont, e1, e2]
+    · have := congrArg Node.pFont hn
+      simp only [ptrs] at this
+      simp [Heap.storedFont, e1, e2, this]
+  have fL : h'.storedLayer = h.storedLayer := funext sL
+  have fS : h'.storedLayerSet = h.storedLayerSet := funext sS
+  have fF : h'.storedFont = h.storedFont := funext sF
+  cases e2 : h.get x with
+  | none =>
+    have e1 : h'.get x = none := by have := hp x; rw [e2] at this; cases e : h'.get x <;> simp [e] at this ⊢
+    simp [layerOf, layerSetOf, fontOf, dispOf, glyphOf, parentOf, e1, e2]
+  | some n =>
+    obtain ⟨n', e1, hn⟩ : ∃ n', h'.get x = some n' ∧ ptrs n' = ptrs n := by
+      have := hp x; rw [e2] at this
+      cases e : h'.get x with
+      | none => simp [e] at this
+      | some n' => exact ⟨n', rfl, by simpa [e] using this⟩
+    have hk : n'.kind = n.kind := by have := congrArg Node.kind hn; simpa [ptrs] using this
+    have hg : n'.pGlyph = n.pGlyph := by have := congrArg Node.pGlyph hn; simpa [ptrs] using this
+    have hl : n'.pLayer = n.pLayer := by have := congrArg Node.pLayer hn; simpa [ptrs] using this
+    have hs : n'.pLayerSet = n.pLayerSet := by have := congrArg Node.pLayerSet hn; simpa [ptrs] using this
+    have hf : n'.pFont = n.pFont := by have := congrArg Node.pFont hn; simpa [ptrs] using this
+    have hd : n'.disp = n.disp := by have := congrArg Node.disp hn; simpa [ptrs] using this
+    have L : layerOf h' x = layerOf h x := by simp only [layerOf, e1, e2, hk, hl, hg, fL]
+    have LS : layerSetOf h' x = layerSetOf h x := by simp only [layerSetOf, e1, e2, hk, hs, hg, fS, L]
+    have F : fontOf h' x = fontOf h x := by simp only [fontOf, e1, e2, hk, hs, hf, hg, fF, LS]
+    refine ⟨L, LS, F, ?_, ?_, ?_⟩
+    · simp only [dispOf, e1, e2, hk, hd, F]
+    · simp only [glyphOf, e1, e2, hk, hg]
+    · simp only [parentOf, e1, e2, hk, hg, hl, hs, hf]
+
+theorem leaf_no_kids {ds} {h : Heap} (s : Struct ds h) {x : Id} {n : Node} (e : h.get x = some n)
+    (k : n.kind.isLeaf = true) : n.kids = [] := by
+  cases hk : n.kids with
+  | nil => rfl
+  | cons y ys =>
+    obtain ⟨ny, _, ha⟩ := s.kKids x n y e (by simp [hk])
+    cases hkk : n.kind <;> simp [hkk, Kind.isLeaf, allowed] at k ha
+
+theorem leaf_owns_nothing {ds} {h : Heap} (s : Struct ds h) {x : Id} {n : Node} (e : h.get x = some n)
+    (k : n.kind.isLeaf = true) : ∀ i, h.ownerOf i ≠ some x := by
+  intro i hi
+  obtain ⟨ni, ei, eo⟩ := ownerOf_some hi
+  have := s.up i ni x ei eo
+  rw [kidsOf_eq e, leaf_no_kids s e k] at this
+  simp at this
+
+/-- an object that points to no owner has no sound registration on it -/
+theorem loose_no_regs {ds} {h : Heap} (w : WiredX ds h) {x : Id} {n : Node} (e : h.get x = some n)
+    (k : n.kind ≠ .font) (eo : owner n = none) : ∀ r ∈ h.regs, r.observable ≠ x := by
+  intro r hr hx
+  have c := (w.regSound r hr).1
+  rw [hx] at c
+  have ho : h.ownerOf x = none := by rw [ownerOf_eq e]; exact eo
+  simp [centreOf, kindOf_eq e, k, ancOf_none w.toStruct ho] at c
+
+theorem get_clear (h : Heap) (z i : Id) : (h.clear z).get i = if z = i then (h.get z).map Node.cleared else h.get i := by
+  simp [Heap.clear, get_upd]
+
+theorem owner_cleared (n : Node) (k : n.kind ≠ .font) : owner n.cleared = none := by
+  cases hk : n.kind <;> simp [owner, Node.cleared, hk]
+
+/-- clearing the references of an object that owns nothing and has no registration left on it,
+provided every live container that lists it is in the middle of being let go -/
+theorem wired_clear {ds} {h : Heap} (w : WiredX ds h) {z : Id} {n : Node} (ez : h.get z = some n)
+    (k : n.kind ≠ .font)
+    (hz : ∀ i, h.ownerOf i ≠ some z) (noreg : ∀ r ∈ h.regs, r.observable ≠ z)
+    (hl : ∀ p, z ∈ h.kidsOf p → h.alive p → p ∈ ds) : WiredX ds (h.clear z) := by
+  have hg : ∀ i, (h.clear z).get i = if z = i then some n.cleared else h.get i := fun i => by
+    rw [get_clear]; by_cases e : z = i
+    · subst e; simp [ez]
+    · simp [e]
+  have oc := owner_cleared n k
+  refine wired_replace w ez hg (by simp [Heap.clear]) rfl rfl hz ?_ (Or.inr (Or.inr ⟨k, oc⟩)) noreg
+  refine ⟨?_, ?_, ?_, ?_, ?_, ?_⟩
+  · intro p hp; rw [oc] at hp; cases hp
+  · simp [Node.cleared]
+  · intro _; simp [Node.cleared]
+  · intro a; simp [Node.cleared]
+  · simp [Node.cleared]
+  · intro p hp hpz hal hpd; exact absurd (hl p hp hal) hpd
+
+
+/-! ### Letting go of one object -/
+
+/-- the registrations on an owned object that is not a layer: its own, and its owner's -/
+theorem regs_on_owned {ds} {h : Heap} (w : WiredX ds h) {r : Reg} (hr : r ∈ h.regs) {x p : Id}
+    (hx : r.observable = x) (kl : h.kindOf x ≠ some .layer) (ho : h.ownerOf x = some p) :
+    dispOf h x = some r.centre ∧ ((r.name = .all ∧ r.observer = x) ∨ (r.observer = p ∧ r.name ∈ namesFor h p x)) := by
+  have ok := w.regSound r hr
+  have c := regOK_centre w.toStruct ok
+  rw [hx] at c
+  refine ⟨c, ?_⟩
+  rcases ok.2 with ⟨h1, h2⟩ | ⟨h1, h2⟩
+  · left; exact ⟨h1, by rw [h2, hx]⟩
+  · right
+    rw [hx] at h1 h2
+    rcases h2 with h2 | ⟨h2, _⟩
+    · rw [ho] at h2; cases h2; exact ⟨rfl, h1⟩
+    · exact absurd h2 kl
+
+theorem dispOf_congr {h h' : Heap} (hg : ∀ i, h'.get i = h.get i) (x : Id) : dispOf h' x = dispOf h x :=
+  (acc_congr_ptrs (fun i => by rw [hg i]) x).2.2.2.1
+
+theorem namesFor_congr {h h' : Heap} (hg : ∀ i, h'.get i = h.get i) (o x : Id) : namesFor h' o x = namesFor h o x := by
+  simp [namesFor, kindOf_congr hg]
+
+/-- `endSelf` after the owner's registrations are gone -/
+theorem wired_endSelf {ds} {h hr : Heap} (w : WiredX ds h) {x : Id} {n : Node} (ex : h.get x = some n)
+    (k : n.kind ≠ .font) (hz : ∀ i, h.ownerOf i ≠ some x)
+    (hl : ∀ p, x ∈ h.kidsOf p → h.alive p → p ∈ ds)
+    (hg : ∀ i, hr.get i = h.get i) (hsub : ∀ r ∈ hr.regs, r ∈ h.regs)
+    (hself : ∀ r ∈ hr.regs, r.observable = x → r.name = .all ∧ r.observer = x) :
+    WiredX ds (endSelf hr x) := by
+  have w1 : WiredX ds hr := wired_regs w hg (fun r hm => Or.inl (hsub r hm))
+  have w2 : WiredX ds (unobserve hr x x [.all]) :=
+    wired_regs w1 (fun i => by simp) (fun r hm => Or.inl (mem_unobserve hm).1)
+  unfold endSelf
+  have ex2 : (unobserve hr x x [.all]).get x = some n := by simp [hg, ex]
+  refine wired_clear w2 ex2 k ?_ ?_ ?_
+  · intro i; simp only [Heap.ownerOf, get_unobserve, hg]; exact hz i
+  · intro r hm hx
+    obtain ⟨h1, h2⟩ := mem_unobserve hm
+    obtain ⟨s1, s2⟩ := hself r h1 hx
+    have c := regOK_centre w1.toStruct (w1.regSound r h1)
+    rw [hx] at c
+    exact h2 r.centre c ⟨rfl, s2, hx, by simp [s1]⟩
+  · intro p hp hal
+    have hp' : x ∈ h.kidsOf p := by simpa [Heap.kidsOf, hg] using hp
+    have hal' : h.alive p := by simpa [Heap.alive, hg] using hal
+    exact hl p hp' hal'
+
+/-- `Glyph.endSelfXNotificationObservation(x)` while the glyph is being let go -/
+theorem wired_detachChild {ds} {h : Heap} (w : WiredX ds h) {g x : Id} (hd : g ∈ ds) : WiredX ds (detachChild h g x) := by
+  unfold detachChild
+  split
+  · exact w
+  · rename_i hgl
+    simp only [ne_eq, Decidable.not_not] at hgl
+    -- x is a leaf that points to g
+    unfold glyphOf at hgl
+    cases ex : h.get x with
+    | none => simp [ex] at hgl
+    | some n =>
+      simp only [ex] at hgl
+      split at hgl
+      · rename_i kleaf
+        have ho : h.ownerOf x = some g := by rw [ownerOf_eq ex]; exact owner_leaf_glyph kleaf hgl
+        have knf : n.kind ≠ .font := by intro e; simp [e, Kind.isLeaf] at kleaf
+        have kl : h.kindOf x ≠ some .layer := by rw [kindOf_eq ex]; intro e; cases e' : n.kind <;> simp_all [Kind.isLeaf]
+        refine wired_endSelf w ex knf (leaf_owns_nothing w.toStruct ex kleaf) ?_ (fun i => by simp)
+          (fun r hm => (mem_unobserve hm).1) ?_
+        · intro p hp hal
+          by_cases hpd : p ∈ ds
+          · exact hpd
+          · have := w.down p x hal hpd hp
+            rw [ho] at this; cases this; exact hd
+        · intro r hm hx
+          obtain ⟨h1, h2⟩ := mem_unobserve hm
+          obtain ⟨c, rest⟩ := regs_on_owned w h1 hx kl ho
+          rcases rest with rest | ⟨r1, r2⟩
+          · exact rest
+          · exact absurd ⟨rfl, r1, hx, r2⟩ (h2 r.centre c)
+      · simp at hgl
+
+
+/-- `endSelfLib/Image/GuidelineNotificationObservation` of an owner that is being let go (or that
+unlists the object in the same breath) -/
+theorem wired_detachSingleton {ds} {h : Heap} (w : WiredX ds h) {p x : Id} {n : Node} (ex : h.get x = some n)
+    (kleaf : n.kind.isLeaf = true) (ho : h.ownerOf x = some p) (hd : p ∈ ds) :
+    WiredX ds (detachSingleton h p x) := by
+  unfold detachSingleton
+  split
+  · exact w
+  · have knf : n.kind ≠ .font := by intro e; simp [e, Kind.isLeaf] at kleaf
+    have kl : h.kindOf x ≠ some .layer := by rw [kindOf_eq ex]; intro e; cases e' : n.kind <;> simp_all [Kind.isLeaf]
+    refine wired_endSelf w ex knf (leaf_owns_nothing w.toStruct ex kleaf) ?_ (fun i => by simp)
+      (fun r hm => (mem_unobserve hm).1) ?_
+    · intro q hq hal
+      by_cases hqd : q ∈ ds
+      · exact hqd
+      · have := w.down q x hal hqd hq
+        rw [ho] at this; cases this; exact hd
+    · intro r hm hx
+      obtain ⟨h1, h2⟩ := mem_unobserve hm
+      obtain ⟨c, rest⟩ := regs_on_owned w h1 hx kl ho
+      rcases rest with rest | ⟨r1, r2⟩
+      · exact rest
+      · exact absurd ⟨rfl, r1, hx, r2⟩ (h2 r.centre c)
+
+/-! what letting go of one leaf does to the other nodes -/
+
+theorem get_endSelf (h : Heap) (x i : Id) : (endSelf h x).get i = if x = i then (h.get x).map Node.cleared else h.get i := by
+  simp [endSelf, get_clear]
+
+theorem get_detachChild (h : Heap) (g x i : Id) :
+    (detachChild h g x).get i = if x = i ∧ glyphOf h x = some g then (h.get x).map Node.cleared else h.get i := by
+  unfold detachChild
+  by_cases e : glyphOf h x = some g
+  · simp [e, get_endSelf]
+  · simp [e]
+
+theorem get_detachSingleton (h : Heap) (p x i : Id) :
+    (detachSingleton h p x).get i = if x = i ∧ dispOf h x ≠ none then (h.get x).map Node.cleared else h.get i := by
+  unfold detachSingleton
+  cases e : dispOf h x with
+  | none => simp
+  | some c => simp [get_endSelf]
+
+
+/-! ### A new object built by its container -/
+
+/-- what the references of a new node `n'` owned by `p` must satisfy, measured in the heap before -/
+structure SpawnOK (h : Heap) (p : Id) (n' : Node) : Prop where
+  noKids : n'.kids = []
+  own : owner n' = some p
+  shape : (n'.kind.isLeaf = false → n'.pGlyph = none) ∧
+    (n'.kind = .font → n'.pLayer = none ∧ n'.pLayerSet = none ∧ n'.pFont = none ∧ n'.disp = none) ∧
+    (n'.kind = .layerSet → n'.pLayer = none ∧ n'.pLayerSet = none) ∧
+    (n'.kind = .layer → n'.pLayer = none ∧ n'.pFont = none)
+  refs : ∀ a,
+    (n'.pGlyph = some a → ancVia h .glyph (some p) = some a) ∧
+    (n'.pLayer = some a → ancVia h .layer (some p) = some a) ∧
+    (n'.pLayerSet = some a → ancVia h .layerSet (some p) = some a) ∧
+    (n'.pFont = some a → ancVia h .font (some p) = some a) ∧
+    (n'.disp = some a → ancVia h .font (some p) = some a)
+  full : (n'.kind = .glyph → n'.pLayer ≠ none → n'.pLayerSet ≠ none ∧ n'.pFont ≠ none) ∧
+    (n'.kind = .layer → n'.pLayerSet ≠ none → ancVia h .font (some p) ≠ none)
+
+theorem get_spawn (h : Heap) (p : Id) (n' : Node) (i : Id) :
+    (spawn h p n').get i = ((h.alloc n').addKid p h.next).get i := by
+  simp [spawn, get_addKid]
+
+theorem regs_addKid (h : Heap) (p x : Id) : (h.addKid p x).regs = h.regs := by simp [Heap.addKid]
+
+theorem mem_spawn_regs {h : Heap} {p : Id} {n' : Node} {r : Reg} (hr : r ∈ (spawn h p n').regs) :
+    r ∈ h.regs ∨ ∃ c, dispOf (h.alloc n') h.next = some c ∧
+      (r = ⟨c, h.next, h.next, .all⟩ ∨ ∃ nm, nm ∈ namesFor (h.alloc n') p h.next ∧ r = ⟨c, p, h.next, nm⟩) := by
+  simp only [spawn, regs_addKid] at hr
+  rcases mem_observe hr with h1 | ⟨c, nm, h1, h2, h3⟩
+  · rcases mem_observe h1 with h0 | ⟨c, nm, g1, g2, g3⟩
+    · exact Or.inl h0
+    · right; simp at g2; subst g2; exact ⟨c, g1, Or.inl g3⟩
+  · right
+    have hg : ∀ i, (observe (h.alloc n') h.next h.next [.all]).get i = (h.alloc n').get i := fun i => by simp
+    rw [dispOf_congr hg] at h1
+    rw [namesFor_congr hg] at h2
+    exact ⟨c, h1, Or.inr ⟨nm, h2, h3⟩⟩
+
+theorem wired_spawn {ds} {h : Heap} (w : WiredX ds h) {p : Id} {np n' : Node}
+    (ep : h.get p = some np) (ha : allowed np.kind n'.kind = true) (ok : SpawnOK h p n') :
+    WiredX ds (spawn h p n') := by
+  have ez : h.get h.next = none := get_next h
+  have hpx : p ≠ h.next := fun e => by rw [e, ez] at ep; cases ep
+  -- 1. a blank node, 2. listed by p (dying meanwhile), 3. which then receives its references
+  have w1 : WiredX (p :: ds) (h.alloc (blank n'.kind)) :=
+    wired_mono (wired_alloc w n'.kind) (fun d hd => List.mem_cons_of_mem _ hd)
+  let h1 := h.alloc (blank n'.kind)
+  have g1 : ∀ i, h1.get i = if i = h.next then some (blank n'.kind) else h.get i := get_alloc h _
+  have e1p : h1.get p = some np := by rw [g1]; simp [hpx, ep]
+  have e1x : h1.get h.next = some (blank n'.kind) := by rw [g1]; simp
+  have hxk : h.next ∉ np.kids := fun hm => by
+    obtain ⟨nx, enx, _⟩ := w.kKids p np h.next ep hm
+    rw [ez] at enx; cases enx
+  have w2 : WiredX (p :: ds) (h1.addKid p h.next) := wired_addKid w1 e1p e1x ha hxk (by simp)
+  let h2 := h1.addKid p h.next
+  have g2 : ∀ i, h2.get i = if p = i then some { np with kids := np.kids ++ [h.next] } else h1.get i := fun i => by
+    show (h1.addKid p h.next).get i = _
+    rw [get_addKid]; by_cases e : p = i
+    · subst e; simp [e1p]
+    · simp [e]
+  have e2x : h2.get h.next = some (blank n'.kind) := by rw [g2]; simp [hpx, e1x]
+  let h3 := h2.upd h.next (fun _ => n')
+  have g3 : ∀ i, h3.get i = if h.next = i then some n' else h2.get i := fun i => by
+    show (h2.upd h.next (fun _ => n')).get i = _
+    rw [get_upd]; by_cases e : h.next = i
+    · subst e; simp [e2x]
+    · simp [e]
+  have hown2 : ∀ i, h2.ownerOf i ≠ some h.next := by
+    intro i hi
+    obtain ⟨ni, ei, eo⟩ := ownerOf_some hi
+    have := w2.up i ni h.next ei eo
+    rw [kidsOf_eq e2x] at this; simp [blank] at this
+  -- ancestors of p are the same in h2 as in h
+  have hk2 : ∀ i, i ≠ h.next → h2.kindOf i = h.kindOf i := fun i hi => by
+    simp only [Heap.kindOf, g2, g1]
+    by_cases e : p = i
+    · subst e; simp [ep]
+    · simp [e, hi]
+  have hanc2 : ∀ k, ancOf h2 k p = ancOf h k p := fun k => by
+    obtain ⟨_, _, ha', _, _, _⟩ := kidsChange_owner (f := fun ks => ks ++ [h.next]) e1p (get_addKid h1 p h.next)
+    rw [show ancOf h2 k p = ancOf (h1.addKid p h.next) k p from rfl, ha']
+    exact anc_frame (fun i hi => by rw [g1]; simp [hi]) (nobody_owned_by_missing w.toStruct ez) k 4 p hpx
+  have hvia : ∀ k, ancVia h2 k (some p) = ancVia h k (some p) := fun k => by
+    simp only [ancVia, hk2 p hpx, hanc2]
+  have nok : NodeOK (p :: ds) h2 h.next n' := by
+    refine ⟨?_, ok.shape, ?_, ?_, ?_, ?_⟩
+    · intro q hq
+      rw [ok.own] at hq; cases hq
+      refine ⟨hpx, ?_⟩
+      rw [Heap.kidsOf, g2]; simp
+    · intro hno; rw [ok.own] at hno; cases hno
+    · intro a; rw [ok.own]; simp only [hvia]; exact ok.refs a
+    · rw [ok.own]; simp only [hvia]; exact ok.full
+    · intro q hq hqx hal hqd
+      -- only p lists h.next
+      exfalso
+      have hne : q ≠ p := fun e => hqd (by simp [e])
+      have : h.next ∈ h.kidsOf q := by
+        have e2 : h2.kidsOf q = h.kidsOf q := by
+          simp only [Heap.kidsOf, g2, g1, Ne.symm hne, if_false, hqx]
+        rw [← e2]; exact hq
+      obtain ⟨nq, enq, hm⟩ := mem_kidsOf this
+      obtain ⟨nx, enx, _⟩ := w.kKids q nq h.next enq hm
+      rw [ez] at enx; cases enx
+  have w3 : WiredX (p :: ds) h3 := by
+    refine wired_replace w2 e2x g3 (regs_upd h2 h.next _) rfl (by rw [ok.noKids]; rfl) hown2 nok
+      (Or.inr (Or.inl rfl)) ?_
+    intro r hr hx
+    have hr' : r ∈ h.regs := by simpa [h2, h1, regs_addKid] using hr
+    obtain ⟨n, en⟩ := regOK_exists (w.regSound r hr')
+    rw [hx, ez] at en; cases en
+  -- the model's heap has the nodes of h3 and sound new registrations
+  have gm : ∀ i, (spawn h p n').get i = h3.get i := fun i => by
+    rw [get_spawn, get_addKid, g3, g2, g1]
+    simp only [get_alloc]
+    by_cases e1 : p = i
+    · subst e1; simp [hpx, Ne.symm hpx, ep]
+    · by_cases e2 : i = h.next
+      · subst e2; simp [e1]
+      · simp [e1, e2, Ne.symm e2]
+  have hptr : ∀ i, ((h.alloc n').get i).map ptrs = (h3.get i).map ptrs := fun i => by
+    rw [g3, g2, g1, get_alloc]
+    by_cases e2 : i = h.next
+    · subst e2; simp
+    · by_cases e1 : p = i
+      · subst e1; simp [e2, Ne.symm e2, ep, ptrs]
+      · simp [e1, e2, Ne.symm e2]
+  have w4 : WiredX (p :: ds) (spawn h p n') := by
+    refine wired_regs w3 gm (fun r hr => ?_)
+    rcases mem_spawn_regs hr with h0 | ⟨c, hc, rest⟩
+    · left; simpa [h3, h2, h1, regs_addKid] using h0
+    · right
+      have hc3 : centreOf h3 h.next = some c := by
+        rw [← disp_exact w3.toStruct, ← (acc_congr_ptrs hptr h.next).2.2.2.1]; exact hc
+      rcases rest with rfl | ⟨nm, hnm, rfl⟩
+      · exact ⟨hc3, Or.inl ⟨rfl, rfl⟩⟩
+      · refine ⟨hc3, Or.inr ⟨?_, Or.inl ?_⟩⟩
+        · have : namesFor h3 p h.next = namesFor (h.alloc n') p h.next := by
+            have hk : ∀ i, h3.kindOf i = (h.alloc n').kindOf i := fun i => by
+              have := congrArg (Option.map Node.kind) (hptr i)
+              simp only [Option.map_map] at this
+              simp only [Heap.kindOf]
+              cases e1 : h3.get i <;> cases e2 : (h.alloc n').get i <;> simp [e1, e2, ptrs, Function.comp_def] at this ⊢
+              exact this.symm
+            simp [namesFor, hk]
+          rw [this]; exact hnm
+        · simp [Heap.ownerOf, g3, ok.own]
+  -- p stops dying
+  by_cases hpd : p ∈ ds
+  · exact wired_mono w4 (fun d hd => by rcases List.mem_cons.mp hd with rfl | hd <;> assumption)
+  · refine wired_undying w4 (fun hal y hy => ?_)
+    have hy3 : y ∈ h3.kidsOf p := by simpa [Heap.kidsOf, gm] using hy
+    have : (spawn h p n').ownerOf y = h3.ownerOf y := by simp [Heap.ownerOf, gm]
+    rw [this]
+    have k3 : h3.kidsOf p = np.kids ++ [h.next] := by simp [Heap.kidsOf, g3, g2, Ne.symm hpx]
+    rw [k3] at hy3
+    rcases List.mem_append.mp hy3 with hy0 | hy0
+    · have yx : y ≠ h.next := fun e => hxk (e ▸ hy0)
+      have yp : y ≠ p := fun e => by
+        subst e
+        obtain ⟨ny, eny, hay⟩ := w.kKids y np y ep hy0
+        rw [ep] at eny; cases eny
+        cases hk : np.kind <;> simp [hk, allowed, Kind.isLeaf] at hay
+      have halive : h.alive p := by
+        obtain ⟨n3, e3, hal3⟩ := hal
+        rw [gm, g3, g2] at e3
+        simp [Ne.symm hpx] at e3
+        exact ⟨np, ep, by subst e3; simpa [owner] using hal3⟩
+      have := w.down p y halive hpd (by rw [kidsOf_eq ep]; exact hy0)
+      simp only [Heap.ownerOf, g3, g2, g1, Ne.symm yx, Ne.symm yp, yx, if_false]
+      exact this
+    · simp at hy0; subst hy0
+      simp [Heap.ownerOf, g3, ok.own]
+
+
+/-! ### A detached leaf adopted by a container -/
+
+/-- the shape of `attachChild` / `attachFontGuideline` -/
+def adopt (h : Heap) (p x : Id) (f : Node → Node) : Heap :=
+  let h := h.upd x f
+  let h := observe h x x [.all]
+  let h := observe h x p (namesFor h p x)
+  h.addKid p x
+
+theorem attachChild_eq (h : Heap) (g x : Id) :
+    attachChild h g x = adopt h g x (fun n => { n with pGlyph := some g, pLayer := none, pLayerSet := none, pFont := none }) := rfl
+
+theorem attachFontGuideline_eq (h : Heap) (f x : Id) :
+    attachFontGuideline h f x = adopt h f x (fun n => { n with pFont := some f }) := rfl
+
+theorem mem_adopt_regs {h : Heap} {p x : Id} {f : Node → Node} {r : Reg} (hr : r ∈ (adopt h p x f).regs) :
+    r ∈ h.regs ∨ ∃ c, dispOf (h.upd x f) x = some c ∧
+      (r = ⟨c, x, x, .all⟩ ∨ ∃ nm, nm ∈ namesFor (h.upd x f) p x ∧ r = ⟨c, p, x, nm⟩) := by
+  simp only [adopt, regs_addKid] at hr
+  rcases mem_observe hr with h1 | ⟨c, nm, h1, h2, h3⟩
+  · rcases mem_observe h1 with h0 | ⟨c, nm, g1, g2, g3⟩
+    · left; simpa using h0
+    · right; simp at g2; subst g2; exact ⟨c, g1, Or.inl g3⟩
+  · right
+    have hg : ∀ i, (observe (h.upd x f) x x [.all]).get i = (h.upd x f).get i := fun i => by simp
+    rw [dispOf_congr hg] at h1
+    rw [namesFor_congr hg] at h2
+    exact ⟨c, h1, Or.inr ⟨nm, h2, h3⟩⟩
+
+theorem wired_adopt {ds} {h : Heap} (w : WiredX ds h) {p x : Id} {np nx : Node} {f : Node → Node}
+    (ep : h.get p = some np) (ex : h.get x = some nx) (kleaf : nx.kind.isLeaf = true) (lo : owner nx = none)
+    (hk : (f nx).kind = nx.kind) (hkids : (f nx).kids = nx.kids)
+    (ha : allowed np.kind nx.kind = true) (hxk : x ∉ np.kids) (ok : SpawnOK h p (f nx)) :
+    WiredX ds (adopt h p x f) := by
+  have knf : nx.kind ≠ .font := by intro e; simp [e, Kind.isLeaf] at kleaf
+  have hpx : p ≠ x := fun e => by
+    subst e; rw [ep] at ex; cases ex
+    cases hkk : np.kind <;> simp [hkk, allowed, Kind.isLeaf] at ha kleaf
+  have w1 : WiredX (p :: ds) h := wired_mono w (fun d hd => List.mem_cons_of_mem _ hd)
+  have w2 : WiredX (p :: ds) (h.addKid p x) := wired_addKid w1 ep ex ha hxk (by simp)
+  let h2 := h.addKid p x
+  have g2 : ∀ i, h2.get i = if p = i then some { np with kids := np.kids ++ [x] } else h.get i := fun i => by
+    show (h.addKid p x).get i = _
+    rw [get_addKid]; by_cases e : p = i
+    · subst e; simp [ep]
+    · simp [e]
+  have e2x : h2.get x = some nx := by rw [g2]; simp [hpx, ex]
+  let h3 := h2.upd x (fun _ => f nx)
+  have g3 : ∀ i, h3.get i = if x = i then some (f nx) else h2.get i := fun i => by
+    show (h2.upd x (fun _ => f nx)).get i = _
+    rw [get_upd]; by_cases e : x = i
+    · subst e; simp [e2x]
+    · simp [e]
+  have hown : ∀ i, h.ownerOf i ≠ some x := leaf_owns_nothing w.toStruct ex kleaf
+  have hown2 : ∀ i, h2.ownerOf i ≠ some x := fun i => by
+    obtain ⟨ho, _⟩ := kidsChange_owner (f := fun ks => ks ++ [x]) ep (get_addKid h p x)
+    rw [show h2.ownerOf i = (h.addKid p x).ownerOf i from rfl, ho]; exact hown i
+  have hvia : ∀ k, ancVia h2 k (some p) = ancVia h k (some p) := fun k => by
+    obtain ⟨_, hk', ha', _⟩ := kidsChange_owner (f := fun ks => ks ++ [x]) ep (get_addKid h p x)
+    simp only [ancVia]
+    rw [show h2.kindOf p = (h.addKid p x).kindOf p from rfl, hk', show ancOf h2 k p = ancOf (h.addKid p x) k p from rfl, ha']
+  have nok : NodeOK (p :: ds) h2 x (f nx) := by
+    refine ⟨?_, ok.shape, ?_, ?_, ?_, ?_⟩
+    · intro q hq
+      rw [ok.own] at hq; cases hq
+      refine ⟨hpx, ?_⟩
+      rw [Heap.kidsOf, g2]; simp
+    · intro hno; rw [ok.own] at hno; cases hno
+    · intro a; rw [ok.own]; simp only [hvia]; exact ok.refs a
+    · rw [ok.own]; simp only [hvia]; exact ok.full
+    · intro q hq hqx hal hqd
+      exfalso
+      have hne : q ≠ p := fun e => hqd (by simp [e])
+      have hq0 : x ∈ h.kidsOf q := by
+        have e2 : h2.kidsOf q = h.kidsOf q := by simp only [Heap.kidsOf, g2, Ne.symm hne, if_false]
+        rw [← e2]; exact hq
+      have hal0 : h.alive q := by simpa [Heap.alive, g2, Ne.symm hne] using hal
+      have := w.down q x hal0 (fun hm => hqd (List.mem_cons_of_mem _ hm)) hq0
+      rw [ownerOf_eq ex, lo] at this; cases this
+  have w3 : WiredX (p :: ds) h3 := by
+    refine wired_replace w2 e2x g3 (regs_upd h2 x _) hk hkids hown2 nok
+      (Or.inr (Or.inl (leaf_no_kids w.toStruct ex kleaf))) ?_
+    intro r hr
+    have hr' : r ∈ h.regs := by simpa [h2, regs_addKid] using hr
+    exact loose_no_regs w ex knf lo r hr'
+  have gm : ∀ i, (adopt h p x f).get i = h3.get i := fun i => by
+    simp only [adopt, get_addKid, get_observe, get_upd, g3, g2]
+    by_cases e1 : p = i
+    · subst e1; simp [hpx, Ne.symm hpx, ep]
+    · by_cases e2 : x = i
+      · subst e2; simp [e1, ex]
+      · simp [e1, e2]
+  have hptr : ∀ i, ((h.upd x f).get i).map ptrs = (h3.get i).map ptrs := fun i => by
+    rw [g3, g2, get_upd]
+    by_cases e2 : x = i
+    · subst e2; simp [ex]
+    · by_cases e1 : p = i
+      · subst e1; simp [e2, ep, ptrs]
+      · simp [e1, e2]
+  have w4 : WiredX (p :: ds) (adopt h p x f) := by
+    refine wired_regs w3 gm (fun r hr => ?_)
+    rcases mem_adopt_regs hr with h0 | ⟨c, hc, rest⟩
+    · left; simpa [h3, h2, regs_addKid] using h0
+    · right
+      have hc3 : centreOf h3 x = some c := by
+        rw [← disp_exact w3.toStruct, ← (acc_congr_ptrs hptr x).2.2.2.1]; exact hc
+      rcases rest with rfl | ⟨nm, hnm, rfl⟩
+      · exact ⟨hc3, Or.inl ⟨rfl, rfl⟩⟩
+      · refine ⟨hc3, Or.inr ⟨?_, Or.inl ?_⟩⟩
+        · have : namesFor h3 p x = namesFor (h.upd x f) p x := by
+            have hk : ∀ i, h3.kindOf i = (h.upd x f).kindOf i := fun i => by
+              have := congrArg (Option.map Node.kind) (hptr i)
+              simp only [Option.map_map] at this
+              simp only [Heap.kindOf]
+              cases e1 : h3.get i <;> cases e2 : (h.upd x f).get i <;> simp [e1, e2, ptrs, Function.comp_def] at this ⊢
+              exact this.symm
+            simp [namesFor, hk]
+          rw [this]; exact hnm
+        · simp [Heap.ownerOf, g3, ok.own]
+  by_cases hpd : p ∈ ds
+  · exact wired_mono w4 (fun d hd => by rcases List.mem_cons.mp hd with rfl | hd <;> assumption)
+  · refine wired_undying w4 (fun hal y hy => ?_)
+    have hy3 : y ∈ h3.kidsOf p := by simpa [Heap.kidsOf, gm] using hy
+    have : (adopt h p x f).ownerOf y = h3.ownerOf y := by simp [Heap.ownerOf, gm]
+    rw [this]
+    have k3 : h3.kidsOf p = np.kids ++ [x] := by simp [Heap.kidsOf, g3, g2, Ne.symm hpx]
+    rw [k3] at hy3
+    rcases List.mem_append.mp hy3 with hy0 | hy0
+    · have yx : y ≠ x := fun e => hxk (e ▸ hy0)
+      have yp : y ≠ p := fun e => by
+        subst e
+        obtain ⟨ny, eny, hay⟩ := w.kKids y np y ep hy0
+        rw [ep] at eny; cases eny
+        cases hk : np.kind <;> simp [hk, allowed, Kind.isLeaf] at hay
+      have halive : h.alive p := by
+        obtain ⟨n3, e3, hal3⟩ := hal
+        rw [gm, g3, g2] at e3
+        simp [Ne.symm hpx] at e3
+        exact ⟨np, ep, by subst e3; simpa [owner] using hal3⟩
+      have := w.down p y halive hpd (by rw [kidsOf_eq ep]; exact hy0)
+      simp only [Heap.ownerOf, g3, g2, Ne.symm yx, Ne.symm yp, if_false]
+      exact this
+    · simp at hy0; subst hy0
+      simp [Heap.ownerOf, g3, ok.own]
+
+
+/-! ### Removing a leaf: unlisting commutes with letting go -/
+
+theorem ptrs_unlist (h : Heap) (p y i : Id) : ((h.unlist p y).get i).map ptrs = (h.get i).map ptrs := by
+  rw [get_unlist]
+  by_cases e : p = i
+  · subst e; cases h.get p <;> simp [ptrs]
+  · simp [e]
+
+theorem kindOf_ptrs {h h' : Heap} (hp : ∀ i, (h'.get i).map ptrs = (h.get i).map ptrs) (i : Id) :
+    h'.kindOf i = h.kindOf i := by
+  have := congrArg (Option.map Node.kind) (hp i)
+  simp only [Option.map_map] at this
+  simp only [Heap.kindOf]
+  cases e1 : h'.get i <;> cases e2 : h.get i <;> simp [e1, e2, ptrs, Function.comp_def] at this ⊢
+  exact this
+
+theorem namesFor_ptrs {h h' : Heap} (hp : ∀ i, (h'.get i).map ptrs = (h.get i).map ptrs) (o x : Id) :
+    namesFor h' o x = namesFor h o x := by simp [namesFor, kindOf_ptrs hp]
+
+theorem regs_unobserve_congr {h h' : Heap} (hp : ∀ i, (h'.get i).map ptrs = (h.get i).map ptrs) (hr : h'.regs = h.regs)
+    (x o : Id) (names : List NName) : (unobserve h' x o names).regs = (unobserve h x o names).regs := by
+  unfold unobserve
+  rw [(acc_congr_ptrs hp x).2.2.2.1]
+  cases dispOf h x <;> simp [hr]
+
+theorem ptrs_unobserve (h : Heap) (x o : Id) (names : List NName) (i : Id) :
+    ((unobserve h x o names).get i).map ptrs = (h.get i).map ptrs := by simp
+
+theorem regs_clear (h : Heap) (x : Id) : (h.clear x).regs = h.regs := by simp [Heap.clear]
+
+theorem regs_endSelf_congr {h h' : Heap} (hp : ∀ i, (h'.get i).map ptrs = (h.get i).map ptrs) (hr : h'.regs = h.regs)
+    (x : Id) : (endSelf h' x).regs = (endSelf h x).regs := by
+  simp only [endSelf, regs_clear]; exact regs_unobserve_congr hp hr x x _
+
+theorem regs_detachChild_congr {h h' : Heap} (hp : ∀ i, (h'.get i).map ptrs = (h.get i).map ptrs) (hr : h'.regs = h.regs)
+    (g x : Id) : (detachChild h' g x).regs = (detachChild h g x).regs := by
+  unfold detachChild
+  rw [(acc_congr_ptrs hp x).2.2.2.2.1, namesFor_ptrs hp]
+  split
+  · exact hr
+  · exact regs_endSelf_congr (fun i => by simp [hp]) (regs_unobserve_congr hp hr _ _ _) x
+
+theorem regs_detachSingleton_congr {h h' : Heap} (hp : ∀ i, (h'.get i).map ptrs = (h.get i).map ptrs) (hr : h'.regs = h.regs)
+    (p x : Id) : (detachSingleton h' p x).regs = (detachSingleton h p x).regs := by
+  unfold detachSingleton
+  rw [(acc_congr_ptrs hp x).2.2.2.1, namesFor_ptrs hp]
+  split
+  · exact hr
+  · exact regs_endSelf_congr (fun i => by simp [hp]) (regs_unobserve_congr hp hr _ _ _) x
+
+theorem regs_unlist (h : Heap) (p x : Id) : (h.unlist p x).regs = h.regs := by simp [Heap.unlist]
+
+theorem get_detachChild_unlist (h : Heap) (p y g x i : Id) :
+    (detachChild (h.unlist p y) g x).get i = ((detachChild h g x).unlist p y).get i := by
+  simp only [get_detachChild, get_unlist, (acc_congr_ptrs (ptrs_unlist h p y) x).2.2.2.2.1]
+  by_cases c : glyphOf h x = some g
+  · by_cases e1 : x = i
+    · subst e1
+      by_cases e2 : p = x
+      · subst e2; cases h.get p <;> simp [c, Node.cleared]
+      · simp [c, e2]
+    · by_cases e2 : p = i
+      · subst e2; simp [c, e1, Ne.symm e1]
+      · simp [c, e1, e2]
+  · simp [c]
+
+theorem get_detachSingleton_unlist (h : Heap) (p y q x i : Id) :
+    (detachSingleton (h.unlist p y) q x).get i = ((detachSingleton h q x).unlist p y).get i := by
+  simp only [get_detachSingleton, get_unlist, (acc_congr_ptrs (ptrs_unlist h p y) x).2.2.2.1]
+  by_cases c : dispOf h x ≠ none
+  · by_cases e1 : x = i
+    · subst e1
+      by_cases e2 : p = x
+      · subst e2; cases h.get p <;> simp [c, Node.cleared]
+      · simp [c, e2]
+    · by_cases e2 : p = i
+      · subst e2; simp [c, e1, Ne.symm e1]
+      · simp [c, e1, e2]
+  · simp [c]
+
+
+/-- a container `p` lets go of `x` and unlists it: generic over how `x` is let go (`hR`) -/
+theorem wired_release_unlist {ds} {h hR : Heap} (w : WiredX ds h) {p x : Id} {C : Prop} [Decidable C]
+    (hstep : ∀ ds', p ∈ ds' → WiredX ds' h → WiredX ds' hR)
+    (hget : ∀ i, hR.get i = if x = i ∧ C then (h.get x).map Node.cleared else h.get i)
+    (hxp : x ≠ p) (hown : hR.ownerOf x ≠ some p) : WiredX ds (hR.unlist p x) := by
+  by_cases hpd : p ∈ ds
+  · exact wired_unlist (hstep ds hpd w) hown
+  · have w1 : WiredX (p :: ds) hR := hstep (p :: ds) (by simp) (wired_mono w (fun d hd => List.mem_cons_of_mem _ hd))
+    have w2 : WiredX (p :: ds) (hR.unlist p x) := wired_unlist w1 hown
+    refine wired_undying w2 (fun hal y hy => ?_)
+    have gp : hR.get p = h.get p := by rw [hget]; simp [hxp]
+    cases ep : h.get p with
+    | none =>
+      exfalso
+      rw [Heap.kidsOf, get_unlist] at hy
+      simp [gp, ep] at hy
+    | some np =>
+      have hy' : y ∈ np.kids ∧ y ≠ x := by
+        rw [Heap.kidsOf, get_unlist] at hy
+        simp [gp, ep] at hy
+        exact hy
+      have hal0 : h.alive p := by
+        obtain ⟨n3, e3, hal3⟩ := hal
+        rw [get_unlist] at e3
+        simp [gp, ep] at e3
+        exact ⟨np, ep, by subst e3; simpa [owner] using hal3⟩
+      have hyp : y ≠ p := fun e => by
+        subst e
+        obtain ⟨ny, eny, hay⟩ := w.kKids y np y ep hy'.1
+        rw [ep] at eny; cases eny
+        cases hk : np.kind <;> simp [hk, allowed, Kind.isLeaf] at hay
+      have := w.down p y hal0 hpd (by rw [kidsOf_eq ep]; exact hy'.1)
+      simp only [Heap.ownerOf, get_unlist, Ne.symm hyp, if_false, hget, Ne.symm hy'.2, false_and]
+      exact this
+
+theorem glyphOf_of_owner {ds} {h : Heap} (s : Struct ds h) {x g : Id} (ho : h.ownerOf x = some g)
+    (kg : h.kindOf g = some .glyph) : glyphOf h x = some g := by
+  obtain ⟨n, np, e, eo, ep, _, ha⟩ := ownerOf_node s ho
+  have kp : np.kind = .glyph := by rw [kindOf_eq ep] at kg; simpa using kg
+  have kleaf : n.kind.isLeaf = true := by rw [kp] at ha; simpa [allowed] using ha
+  rw [glyphOf_leaf e kleaf]
+  cases eg : n.pGlyph with
+  | some g' => rw [owner_leaf_glyph kleaf eg] at eo; exact eo
+  | none =>
+    exfalso
+    cases el : n.pLayer with
+    | some l =>
+      obtain ⟨nl, enl, knl, ho', _⟩ := exact_leaf_layer s e kleaf eg el
+      rw [ho] at ho'; cases ho'
+      rw [ep] at enl; cases enl
+      rw [kp] at knl; cases knl
+    | none =>
+      cases ef : n.pFont with
+      | some f =>
+        obtain ⟨kf, ho', _⟩ := exact_leaf_font s e kleaf eg el ef
+        rw [ho] at ho'; cases ho'
+        rw [kg] at kf; cases kf
+      | none =>
+        have : owner n = none := by cases hk : n.kind <;> simp [owner, hk, eg, el, ef, Kind.isLeaf] at kleaf ⊢
+        rw [this] at eo; cases eo
+
+theorem wired_removeChild {ds} {h : Heap} (w : WiredX ds h) {g x : Id} (kg : h.kindOf g = some .glyph) :
+    WiredX ds (removeChild h g x) := by
+  unfold removeChild
+  refine wired_regs (h := (detachChild h g x).unlist g x) ?_ (fun i => by rw [get_mark, get_detachChild_unlist])
+    (fun r hr => Or.inl ?_)
+  · have hxg : x ≠ g ∨ glyphOf h x ≠ some g := by
+      by_cases e : x = g
+      · right; subst e
+        obtain ⟨n, en, kn⟩ := kindOf_some kg
+        simp [glyphOf, en, kn, Kind.isLeaf]
+      · exact Or.inl e
+    by_cases c : glyphOf h x = some g
+    · have hxg' : x ≠ g := by rcases hxg with e | e; exact e; exact absurd c e
+      refine wired_release_unlist (C := glyphOf h x = some g) w (fun ds' hd w' => wired_detachChild w' hd)
+        (get_detachChild h g x) hxg' ?_
+      rw [Heap.ownerOf, get_detachChild]
+      simp only [c, and_self, if_true]
+      cases ex : h.get x with
+      | none => simp
+      | some n =>
+        have : n.kind ≠ .font := by
+          intro e; simp [glyphOf, ex, e, Kind.isLeaf] at c
+        simp [owner_cleared n this]
+    · have hd : detachChild h g x = h := by simp [detachChild, c]
+      rw [hd]
+      refine wired_unlist w (fun ho => c (glyphOf_of_owner w.toStruct ho kg))
+  · rw [regs_mark] at hr
+    rw [regs_unlist]
+    rw [regs_detachChild_congr (ptrs_unlist h g x) (regs_unlist h g x)] at hr
+    exact hr
+
+
+theorem centre_of_owned_by_font {ds} {h : Heap} (s : Struct ds h) {x f : Id} (ho : h.ownerOf x = some f)
+    (kf : h.kindOf f = some .font) : dispOf h x = some f := by
+  rw [disp_exact s]
+  obtain ⟨n, np, e, _, ep, _, ha⟩ := ownerOf_node s ho
+  have : h.kindOf x ≠ some .font := by
+    rw [kindOf_eq e]; intro hk
+    have hk' : n.kind = .font := by simpa using hk
+    cases hp : np.kind <;> simp [hk', hp, allowed, Kind.isLeaf] at ha
+  simp only [centreOf, this, if_false]
+  exact ancOf_eq s ho kf
+
+theorem wired_removeFontGuideline {ds} {h : Heap} (w : WiredX ds h) {f x : Id} {nx : Node}
+    (ex : h.get x = some nx) (kleaf : nx.kind.isLeaf = true) (ho : h.ownerOf x = some f)
+    (kf : h.kindOf f = some .font) : WiredX ds (removeFontGuideline h f x) := by
+  unfold removeFontGuideline
+  refine wired_regs (h := (detachSingleton h f x).unlist f x) ?_ (fun i => by rw [get_mark, get_detachSingleton_unlist])
+    (fun r hr => Or.inl ?_)
+  · have hxf : x ≠ f := fun e => by
+      subst e; rw [kindOf_eq ex] at kf
+      have : nx.kind = .font := by simpa using kf
+      simp [this, Kind.isLeaf] at kleaf
+    have hc := centre_of_owned_by_font w.toStruct ho kf
+    refine wired_release_unlist (C := dispOf h x ≠ none) w
+      (fun ds' hd w' => wired_detachSingleton w' ex kleaf ho hd) (get_detachSingleton h f x) hxf ?_
+    rw [Heap.ownerOf, get_detachSingleton]
+    have knf : nx.kind ≠ .font := by intro e; simp [e, Kind.isLeaf] at kleaf
+    simp [hc, ex, owner_cleared nx knf]
+  · rw [regs_mark] at hr
+    rw [regs_unlist]
+    rw [regs_detachSingleton_congr (ptrs_unlist h f x) (regs_unlist h f x)] at hr
+    exact hr
+
+
+/-! ### A glyph lets go of everything it owns -/
+
+/-- one turn of the loop in `Glyph.endSelfNotificationObservation` -/
+def stepG (g : Id) (h : Heap) (k : Id) : Heap :=
+  match h.kindOf k with
+  | some .image | some .lib => detachSingleton h g k
+  | some _ => detachChild h g k
+  | none => h
+
+theorem regs_endSelf_sub {h : Heap} {x : Id} {r : Reg} (hr : r ∈ (endSelf h x).regs) : r ∈ h.regs := by
+  simp only [endSelf, regs_clear] at hr; exact (mem_unobserve hr).1
+
+theorem regs_detachChild_sub {h : Heap} {g x : Id} {r : Reg} (hr : r ∈ (detachChild h g x).regs) : r ∈ h.regs := by
+  unfold detachChild at hr
+  split at hr
+  · exact hr
+  · exact (mem_unobserve (regs_endSelf_sub hr)).1
+
+theorem regs_detachSingleton_sub {h : Heap} {p x : Id} {r : Reg} (hr : r ∈ (detachSingleton h p x).regs) : r ∈ h.regs := by
+  unfold detachSingleton at hr
+  split at hr
+  · exact hr
+  · exact (mem_unobserve (regs_endSelf_sub hr)).1
+
+/-- what is owned by a glyph that has a centre has that centre -/
+theorem disp_of_owned_by_glyph {ds} {h : Heap} (s : Struct ds h) {k g : Id} (ho : h.ownerOf k = some g)
+    (kg : h.kindOf g = some .glyph) : dispOf h k = dispOf h g := by
+  rw [disp_exact s, disp_exact s]
+  obtain ⟨n, np, e, _, ep, _, ha⟩ := ownerOf_node s ho
+  have kp : np.kind = .glyph := by rw [kindOf_eq ep] at kg; simpa using kg
+  have kleaf : n.kind.isLeaf = true := by rw [kp] at ha; simpa [allowed] using ha
+  have k1 : h.kindOf k ≠ some .font := by rw [kindOf_eq e]; intro hk; cases hkk : n.kind <;> simp_all [Kind.isLeaf]
+  have k2 : h.kindOf g ≠ some .font := by rw [kg]; simp
+  simp only [centreOf, k1, k2, if_false]
+  exact ancOf_ne s ho k2
+
+theorem stepG_facts {ds} {h : Heap} {g k : Id} (w : WiredX (g :: ds) h) (ho : h.ownerOf k = some g)
+    (kg : h.kindOf g = some .glyph) (hc : dispOf h g ≠ none) :
+    WiredX (g :: ds) (stepG g h k) ∧
+    (∀ i, (stepG g h k).get i = if k = i then (h.get k).map Node.cleared else h.get i) ∧
+    (∀ r ∈ (stepG g h k).regs, r ∈ h.regs) := by
+  obtain ⟨n, np, e, _, ep, _, ha⟩ := ownerOf_node w.toStruct ho
+  have kp : np.kind = .glyph := by rw [kindOf_eq ep] at kg; simpa using kg
+  have kleaf : n.kind.isLeaf = true := by rw [kp] at ha; simpa [allowed] using ha
+  have hg := glyphOf_of_owner w.toStruct ho kg
+  have hd : dispOf h k ≠ none := by rw [disp_of_owned_by_glyph w.toStruct ho kg]; exact hc
+  unfold stepG
+  rw [kindOf_eq e]
+  cases hk : n.kind <;> simp [hk, Kind.isLeaf] at kleaf ⊢
+  all_goals first
+    | exact ⟨wired_detachChild w (by simp), fun i => by rw [get_detachChild]; simp [hg],
+        fun r hr => regs_detachChild_sub hr⟩
+    | exact ⟨wired_detachSingleton w e (by simp [hk, Kind.isLeaf]) ho (by simp),
+        fun i => by rw [get_detachSingleton]; simp [hd], fun r hr => regs_detachSingleton_sub hr⟩
+
+theorem fold_stepG {ds} {g : Id} (ks : List Id) (hnd : ks.Nodup) :
+    ∀ h, WiredX (g :: ds) h → h.kindOf g = some .glyph → dispOf h g ≠ none → g ∉ ks →
+      (∀ k ∈ ks, h.ownerOf k = some g) →
+      WiredX (g :: ds) (ks.foldl (stepG g) h) ∧
+      (∀ i, (ks.foldl (stepG g) h).get i = if i ∈ ks then (h.get i).map Node.cleared else h.get i) ∧
+      (∀ r ∈ (ks.foldl (stepG g) h).regs, r ∈ h.regs) := by
+  induction ks with
+  | nil => intro h w _ _ _ _; exact ⟨w, fun i => by simp, fun r hr => hr⟩
+  | cons k ks ih =>
+    intro h w kg hc hgk hown
+    obtain ⟨w1, g1, r1⟩ := stepG_facts w (hown k (by simp)) kg hc
+    have hkk : k ∉ ks := (List.nodup_cons.mp hnd).1
+    have gk : g ≠ k := fun e => hgk (by simp [e])
+    have kg1 : (stepG g h k).kindOf g = some .glyph := by
+      simp only [Heap.kindOf, g1, Ne.symm gk, if_false]; exact kg
+    obtain ⟨n, np, e, _, ep, _, ha⟩ := ownerOf_node w.toStruct (hown k (by simp))
+    have kp : np.kind = .glyph := by rw [kindOf_eq ep] at kg; simpa using kg
+    have kleaf : n.kind.isLeaf = true := by rw [kp] at ha; simpa [allowed] using ha
+    have hc1 : dispOf (stepG g h k) g ≠ none := by
+      rw [disp_exact w1.toStruct]
+      rw [disp_exact w.toStruct] at hc
+      have k2 : h.kindOf g ≠ some .font := by rw [kg]; simp
+      have k2' : (stepG g h k).kindOf g ≠ some .font := by rw [kg1]; simp
+      simp only [centreOf, k2, k2', if_false] at hc ⊢
+      rw [show ancOf (stepG g h k) .font g = ancOf h .font g from
+        anc_frame (fun i hi => by rw [g1]; simp [Ne.symm hi]) (leaf_owns_nothing w.toStruct e kleaf) .font 4 g gk]
+      exact hc
+    have hown1 : ∀ k' ∈ ks, (stepG g h k).ownerOf k' = some g := fun k' hk' => by
+      have : k ≠ k' := fun e => hkk (e ▸ hk')
+      simp only [Heap.ownerOf, g1, this, if_false]
+      exact hown k' (by simp [hk'])
+    obtain ⟨w2, g2, r2⟩ := ih (List.nodup_cons.mp hnd).2 (stepG g h k) w1 kg1 hc1 (fun hm => hgk (by simp [hm])) hown1
+    rw [List.foldl_cons]
+    refine ⟨w2, fun i => ?_, fun r hr => r1 r (r2 r hr)⟩
+    rw [g2, g1]
+    by_cases e1 : k = i
+    · subst e1; simp [hkk]
+    · by_cases e2 : i ∈ ks
+      · simp [e1, e2]
+      · simp [e1, e2, Ne.symm e1]
+
+
+theorem endGlyph_eq (h : Heap) (l g : Id) :
+    endGlyph h l g = match dispOf h g with
+      | none => h
+      | some _ => endSelf (((unobserve h g l (namesFor h l g)).kidsOf g).foldl (stepG g) (unobserve h g l (namesFor h l g))) g := by
+  unfold endGlyph stepG
+  rfl
+
+theorem wired_endGlyph {ds} {h : Heap} (w : WiredX ds h) {l g : Id} {ng : Node} (eg : h.get g = some ng)
+    (kg : ng.kind = .glyph) (ho : h.ownerOf g = some l) (hl : l ∈ ds) (hgd : g ∉ ds) :
+    WiredX ds (endGlyph h l g) ∧
+    (∀ i, (endGlyph h l g).get i =
+      if dispOf h g ≠ none ∧ (i = g ∨ h.ownerOf i = some g) then (h.get i).map Node.cleared else h.get i) ∧
+    (∀ r ∈ (endGlyph h l g).regs, r ∈ h.regs) := by
+  rw [endGlyph_eq]
+  cases hc : dispOf h g with
+  | none => exact ⟨w, fun i => by simp, fun r hr => hr⟩
+  | some c =>
+    simp only
+    have kgg : h.kindOf g = some .glyph := by rw [kindOf_eq eg, kg]
+    let h1 := unobserve h g l (namesFor h l g)
+    have gh1 : ∀ i, h1.get i = h.get i := fun i => by simp [h1]
+    have w1 : WiredX (g :: ds) h1 :=
+      wired_mono (wired_regs w gh1 (fun r hr => Or.inl (mem_unobserve hr).1)) (fun d hd => List.mem_cons_of_mem _ hd)
+    have kids1 : h1.kidsOf g = ng.kids := by simp [Heap.kidsOf, gh1, eg]
+    have galive : h.alive g := ⟨ng, eg, Or.inr (by rw [← ownerOf_eq eg, ho]; simp)⟩
+    have hown : ∀ k ∈ ng.kids, h1.ownerOf k = some g := fun k hk => by
+      simp only [Heap.ownerOf, gh1]
+      exact w.down g k galive hgd (by rw [kidsOf_eq eg]; exact hk)
+    have gnk : g ∉ ng.kids := fun hm => by
+      obtain ⟨ny, eny, hay⟩ := w.kKids g ng g eg hm
+      rw [eg] at eny; cases eny
+      simp [kg, allowed, Kind.isLeaf] at hay
+    have hc1 : dispOf h1 g ≠ none := by rw [dispOf_congr gh1, hc]; simp
+    obtain ⟨w2, g2, r2⟩ := fold_stepG ng.kids (w.kidsNodup g ng eg) h1 w1
+      (by rw [kindOf_congr gh1]; exact kgg) hc1 gnk hown
+    rw [kids1]
+    let h2 := ng.kids.foldl (stepG g) h1
+    have e2g : h2.get g = some ng := by
+      show (ng.kids.foldl (stepG g) h1).get g = _
+      rw [g2]; simp [gnk, gh1, eg]
+    have knf : ng.kind ≠ .font := by rw [kg]; simp
+    -- nothing is owned by g any more
+    have hz : ∀ i, h2.ownerOf i ≠ some g := by
+      intro i hi
+      obtain ⟨ni, ei, eo⟩ := ownerOf_some hi
+      have hm := w2.up i ni g ei eo
+      rw [kidsOf_eq e2g] at hm
+      have : h2.get i = (h1.get i).map Node.cleared := by
+        show (ng.kids.foldl (stepG g) h1).get i = _
+        rw [g2]; simp [hm]
+      rw [this, gh1] at ei
+      cases e0 : h.get i with
+      | none => simp [e0] at ei
+      | some n0 =>
+        simp [e0] at ei
+        have kn0 : n0.kind ≠ .font := by
+          obtain ⟨ny, eny, hay⟩ := w.kKids g ng i eg hm
+          rw [e0] at eny; cases eny
+          intro e; simp [kg, e, allowed, Kind.isLeaf] at hay
+        rw [← ei, owner_cleared n0 kn0] at eo; cases eo
+    have hself : ∀ r ∈ h2.regs, r.observable = g → r.name = .all ∧ r.observer = g := by
+      intro r hr hx
+      have hr1 := r2 r hr
+      obtain ⟨hr0, hnot⟩ := mem_unobserve hr1
+      have kl : h.kindOf g ≠ some .layer := by rw [kgg]; simp
+      obtain ⟨c', rest⟩ := regs_on_owned w hr0 hx kl ho
+      rcases rest with rest | ⟨q1, q2⟩
+      · exact rest
+      · exact absurd ⟨rfl, q1, hx, q2⟩ (hnot r.centre c')
+    have hlist : ∀ p, g ∈ h2.kidsOf p → h2.alive p → p ∈ g :: ds := by
+      intro p hp hal
+      by_cases hpd : p ∈ g :: ds
+      · exact hpd
+      · have := w2.down p g hal hpd hp
+        have hog : h2.ownerOf g = some l := by rw [ownerOf_eq e2g, ← ownerOf_eq eg]; exact ho
+        rw [hog] at this; cases this
+        exact List.mem_cons_of_mem _ hl
+    have w3 : WiredX (g :: ds) (endSelf h2 g) :=
+      wired_endSelf w2 e2g knf hz hlist (fun i => rfl) (fun r hr => hr) hself
+    have g3 : ∀ i, (endSelf h2 g).get i = if i = g ∨ h.ownerOf i = some g then (h.get i).map Node.cleared else h.get i := by
+      intro i
+      rw [get_endSelf]
+      by_cases e1 : g = i
+      · subst e1; simp [e2g, eg]
+      · have : h2.get i = if i ∈ ng.kids then (h1.get i).map Node.cleared else h1.get i := g2 i
+        rw [this, gh1]
+        have hiff : i ∈ ng.kids ↔ h.ownerOf i = some g := by
+          constructor
+          · intro hm; exact w.down g i galive hgd (by rw [kidsOf_eq eg]; exact hm)
+          · intro hoi
+            obtain ⟨ni, ei, eo⟩ := ownerOf_some hoi
+            have := w.up i ni g ei eo
+            rw [kidsOf_eq eg] at this; exact this
+        by_cases e2 : i ∈ ng.kids
+        · simp [e1, Ne.symm e1, e2, hiff.mp e2]
+        · have : ¬ h.ownerOf i = some g := fun hh => e2 (hiff.mpr hh)
+          simp [e1, Ne.symm e1, e2, this]
+    refine ⟨?_, fun i => ?_, fun r hr => ?_⟩
+    · refine wired_undying w3 (fun hal => ?_)
+      exfalso
+      obtain ⟨n3, e3, hal3⟩ := hal
+      rw [g3] at e3
+      simp [eg] at e3
+      subst e3
+      rcases hal3 with hal3 | hal3
+      · simp [Node.cleared, kg] at hal3
+      · exact hal3 (owner_cleared ng knf)
+    · rw [g3]; simp
+    · exact (mem_unobserve (r2 r (regs_endSelf_sub hr))).1
+
+
+/-- a container `p` lets go of `x` (and of what `x` owns) and unlists it -/
+theorem wired_release_unlist' {ds} {h hR : Heap} (w : WiredX ds h) {p x : Id}
+    (hstep : ∀ ds', p ∈ ds' → x ∉ ds' → WiredX ds' h → WiredX ds' hR)
+    (hxd : x ∉ ds) (hxp : x ≠ p)
+    (gp : hR.get p = h.get p)
+    (hkeep : ∀ y, y ≠ x → h.ownerOf y = some p → hR.ownerOf y = some p)
+    (hown : hR.ownerOf x ≠ some p) : WiredX ds (hR.unlist p x) := by
+  by_cases hpd : p ∈ ds
+  · exact wired_unlist (hstep ds hpd hxd w) hown
+  · have w1 : WiredX (p :: ds) hR := hstep (p :: ds) (by simp) (by simp [hxp, hxd])
+      (wired_mono w (fun d hd => List.mem_cons_of_mem _ hd))
+    have w2 : WiredX (p :: ds) (hR.unlist p x) := wired_unlist w1 hown
+    refine wired_undying w2 (fun hal y hy => ?_)
+    cases ep : h.get p with
+    | none =>
+      exfalso
+      rw [Heap.kidsOf, get_unlist] at hy
+      simp [gp, ep] at hy
+    | some np =>
+      have hy' : y ∈ np.kids ∧ y ≠ x := by
+        rw [Heap.kidsOf, get_unlist] at hy
+        simp [gp, ep] at hy
+        exact hy
+      have hal0 : h.alive p := by
+        obtain ⟨n3, e3, hal3⟩ := hal
+        rw [get_unlist] at e3
+        simp [gp, ep] at e3
+        exact ⟨np, ep, by subst e3; simpa [owner] using hal3⟩
+      have hyp : y ≠ p := fun e => by
+        subst e
+        obtain ⟨ny, eny, hay⟩ := w.kKids y np y ep hy'.1
+        rw [ep] at eny; cases eny
+        cases hk : np.kind <;> simp [hk, allowed, Kind.isLeaf] at hay
+      have := w.down p y hal0 hpd (by rw [kidsOf_eq ep]; exact hy'.1)
+      have h2 := hkeep y hy'.2 this
+      simp only [Heap.ownerOf, get_unlist, Ne.symm hyp, if_false]
+      exact h2
+
+theorem layer_owner_not_glyph {ds} {h : Heap} (s : Struct ds h) {l g : Id} (kl : h.kindOf l = some .layer)
+    (kg : h.kindOf g = some .glyph) : h.ownerOf l ≠ some g := by
+  intro ho
+  obtain ⟨n, e, eo⟩ := ownerOf_some ho
+  obtain ⟨np, ep, _, hk, _⟩ := owner_kind s e eo
+  have : n.kind = .layer := by rw [kindOf_eq e] at kl; simpa using kl
+  have := hk this
+  rw [kindOf_eq ep, this] at kg; cases kg
+
+theorem wired_killGlyph {ds} {h : Heap} (w : WiredX ds h) {l g : Id} {ng : Node} (eg : h.get g = some ng)
+    (kg : ng.kind = .glyph) (ho : h.ownerOf g = some l) (hgd : g ∉ ds) (hc : dispOf h g ≠ none) :
+    WiredX ds (killGlyph h l g) := by
+  unfold killGlyph
+  have kgg : h.kindOf g = some .glyph := by rw [kindOf_eq eg, kg]
+  obtain ⟨n', nl, _, eo', el, _, hal⟩ := ownerOf_node w.toStruct ho
+  have kl : h.kindOf l = some .layer := by
+    rw [kindOf_eq el]
+    have : n' = ng := by rw [eg] at *; simp_all
+    subst this
+    cases hk : nl.kind <;> simp [hk, kg, allowed, Kind.isLeaf] at hal ⊢
+  have hgl : g ≠ l := fun e => by rw [e, kl] at kgg; cases kgg
+  have holg := layer_owner_not_glyph w.toStruct kl kgg
+  have knf : ng.kind ≠ .font := by rw [kg]; simp
+  refine wired_release_unlist' w
+    (fun ds' hl hg' w' => (wired_endGlyph w' eg kg ho hl hg').1) hgd hgl ?_ ?_ ?_
+  · rw [(wired_endGlyph (wired_mono w (fun d hd => List.mem_cons_of_mem l hd)) eg kg ho (by simp)
+      (by simp [hgl, hgd])).2.1]
+    simp [Ne.symm hgl, holg]
+  · intro y hy hoy
+    have hyg : h.ownerOf y ≠ some g := by rw [hoy]; intro e; cases e; exact hgl rfl
+    rw [Heap.ownerOf, (wired_endGlyph (wired_mono w (fun d hd => List.mem_cons_of_mem l hd)) eg kg ho (by simp)
+      (by simp [hgl, hgd])).2.1]
+    simp [hy, hyg]
+    exact hoy
+  · rw [Heap.ownerOf, (wired_endGlyph (wired_mono w (fun d hd => List.mem_cons_of_mem l hd)) eg kg ho (by simp)
+      (by simp [hgl, hgd])).2.1]
+    simp [hc, eg, owner_cleared ng knf]
+
 end Parents
 end DefconModel
